@@ -323,7 +323,10 @@ VARIANTS += [
     ("C15-rs-long-year", "C15", RSHH, "    (p(year) % 7 == 4) || (p(year - 1) % 7 == 3)", "    (p(year) % 7 == 4) || (p(year - 1) % 7 == 4)", "SIBLING.is_long_year"),
     ("C15-py-weekday", "C15", PYH, "    if month < 3:\n        year -= 1\n\n    w = (", "    if month < 2:\n        year -= 1\n\n    w = (", "FORMULA.week_day"),
     ("C15-rs-weekday", "C15", RSHH, "let y: i32 = year - i32::from(month < 3);", "let y: i32 = year - i32::from(month < 4);", "SIBLING.week_day"),
-    ("C15-py-daynumber", "C15", PYH, "        + (month * 306 + 5) // 10", "        + (month * 306 + 4) // 10", "FORMULA.day_number"),
+    # (month * 306 + 4) // 10 equals (month * 306 + 5) // 10 for every month 0..11 (the remainders are 5, 1, 7, 3, 9, 5, 1, 7, 3, 9, 5, 1): behaviour-preserving,
+    # as PRIM.tabulated py:_day_number shows - it had been a must-report variant of the formula shape rule
+    ("C15-py-daynumber", "C15", PYH, "        + (month * 306 + 5) // 10", "        + (month * 306 + 4) // 10", None),
+    ("C15-py-daynumber-2", "C15", PYH, "        + (month * 306 + 5) // 10", "        + (month * 306 + 9) // 10", "PRIM.tabulated"),
     ("C15-rs-daynumber", "C15", RSHH, "let m = i32::from((month + 9) % 12);", "let m = i32::from((month + 8) % 12);", "SIBLING.day_number"),
     ("C15-py-localtime-shift", "C15", PYH, "        seconds -= 10957 * SECS_PER_DAY\n        year += 30  # == 2000", "        seconds -= 10958 * SECS_PER_DAY\n        year += 30  # == 2000", "LOCALTIME.prefix"),
     ("C15-rs-localtime-shift", "C15", RSHH, "        year -= 370; // == 1600", "        year -= 371; // == 1600", "SIBLING.local_time"),
